@@ -327,6 +327,7 @@ deriving Repr, Inhabited
 /-- Simple statements (the only ones allowed in FB bodies). -/
 inductive SStmt where
   | inc (t : Target) (k : Int)        -- t := t + k   (typed literal)
+  | incu (t : Target) (k : Int)       -- t := t + k   (UNTYPED literal: SINT/INT are computed in DINT)
   | tog (t : Target)                  -- t := NOT t
   | set (t : Target) (v : Val)        -- t := literal
   | cpy (dst src : Target)            -- dst := src
@@ -352,12 +353,26 @@ structure GlobalMeta where
   init : GInit
 deriving Repr, Inhabited
 
+/-- Initialiser EXPRESSION of a program variable (integer types): typed literals, globals,
+variables of the instance being initialised, `+`, `*`.  `eval_expr` reads the storage as it is
+when the instance is created. -/
+inductive IExpr where
+  | lit (k : Int)
+  | glob (n : Nat)
+  | loc (n : Nat)
+  | add (a b : IExpr)
+  | mul (a b : IExpr)
+deriving Repr, Inhabited
+
 /-- What `init_var_defaults` does for one `VarDef`: a constant (default value overwritten by the
-evaluated initialiser), a nested FB instance, or nothing (`external`). -/
+evaluated initialiser), a nested FB instance, nothing (`external`), or an initialiser expression
+whose result is coerced to the declared type `ty` (`coerce_value_to_type`; the generated values
+stay inside the range of the type). -/
 inductive VInit where
   | plain (v : Val)
   | fb (ty : Nat)
   | ext
+  | expr (ty : Nat) (e : IExpr)
 deriving Repr, Inhabited
 
 /-- `VarDef` (eval/mod.rs): name, retain policy, initialisation. -/
@@ -593,6 +608,27 @@ def createFbInstance (fbs : List FbDef) (s : Storage) (ty : Nat) : Except Err (S
     let (s1, id) := s.createInstance fb.name
     .ok (setMembers s1 id fb.members, id)
 
+/-- `eval_expr` on an initialiser with `current_instance = id`: integer payloads (the operand
+tags do not matter, the result is coerced to the declared type). -/
+def IExpr.eval (s : Storage) (id : Nat) : IExpr → Option Int
+  | .lit k => some k
+  | .glob n =>
+    match s.getGlobal n with
+    | some (.num _ v) => some v
+    | _ => none
+  | .loc n =>
+    match s.getInstVar id n with
+    | some (.num _ v) => some v
+    | _ => none
+  | .add a b =>
+    match a.eval s id, b.eval s id with
+    | some x, some y => some (x + y)
+    | _, _ => none
+  | .mul a b =>
+    match a.eval s id, b.eval s id with
+    | some x, some y => some (x * y)
+    | _, _ => none
+
 /-- `init_var_defaults` over the `VarDef`s of a program. -/
 def initVars (fbs : List FbDef) (s : Storage) (id : Nat) : List VarDef → Except Err Storage
   | [] => .ok s
@@ -600,6 +636,10 @@ def initVars (fbs : List FbDef) (s : Storage) (id : Nat) : List VarDef → Excep
     match d.init with
     | .plain v => initVars fbs (s.setInstVar id d.name v) id rest
     | .ext => initVars fbs s id rest
+    | .expr ty e =>
+      match e.eval s id with
+      | some k => initVars fbs (s.setInstVar id d.name (.num ty k)) id rest
+      | none => .error .undefinedVariable
     | .fb ty =>
       match createFbInstance fbs s ty with
       | .error e => .error e
@@ -801,6 +841,73 @@ not dirty, nothing remembered. -/
 def setRetainStore (rt : Runtime) (autosave : Bool) : Runtime :=
   { rt with retain := some { autosave := autosave, dirty := false, lastSave := rt.time, lastSnapshot := none } }
 
+/-! ### The restart signal of the resource thread (`scheduler.rs`, `run_resource_loop`) -/
+
+/-- The `Arc<Mutex<Option<RestartMode>>>` shared by the control endpoint and the resource thread,
+together with the thread's position: `busy = some m` while it carries out request `m` — it took
+the request out of the slot and still HOLDS the lock (`guard.take()` inside `signal.lock()`,
+`restart(mode)`, `load_retain_store()`, then the guard is dropped).  `blocked`: a requester
+waiting for the lock.  `done`: the restarts carried out, newest first. -/
+structure SigSt where
+  slot : Option Mode := none
+  busy : Option Mode := none
+  blocked : Option Mode := none
+  done : List Mode := []
+deriving Repr, Inhabited
+
+inductive SigEv where
+  | request (m : Mode)    -- control endpoint: `*signal.lock() = Some(m)`
+  | poll                  -- resource loop reaches `if let Some(mode) = guard.take()`
+  | finish                -- restart + load done, guard dropped
+deriving Repr, Inhabited
+
+def sigStep (s : SigSt) : SigEv → SigSt
+  | .request m => if s.busy.isSome then { s with blocked := some m } else { s with slot := some m }
+  | .poll =>
+    match s.busy, s.slot with
+    | none, some m => { s with slot := none, busy := some m }
+    | _, _ => s
+  | .finish =>
+    match s.busy with
+    | some m =>
+      { s with busy := none, done := m :: s.done,
+               slot := (match s.blocked with | some b => some b | none => s.slot),
+               blocked := none }
+    | none => s
+
+def sigRun (s : SigSt) : List SigEv → SigSt
+  | [] => s
+  | e :: rest => sigRun (sigStep s e) rest
+
+/-- The thread keeps polling: whatever is left is carried out. -/
+def sigQuiesce (s : SigSt) : SigSt := sigRun s [.finish, .poll, .finish, .poll, .finish]
+
+/-- The last request made. -/
+def lastRequest : List SigEv → Option Mode → Option Mode
+  | [], acc => acc
+  | .request m :: rest, _ => lastRequest rest (some m)
+  | _ :: rest, acc => lastRequest rest acc
+
+/-- When a scripted request reaches the signal. -/
+inductive When where
+  | pre       -- before the thread starts (no poll yet)
+  | idle      -- every earlier request has been carried out
+  | during    -- while the previous request is being carried out
+deriving Repr, DecidableEq, Inhabited
+
+/-- Events of a scripted tail (the thread starts polling after the `pre` requests). -/
+def schedEvents : List (When × Mode) → Bool → List SigEv
+  | [], started => if started then [] else [.poll]
+  | (.pre, m) :: rest, started => .request m :: schedEvents rest started
+  | (.idle, m) :: rest, started =>
+    (if started then [] else [.poll]) ++ [.finish, .request m, .poll] ++ schedEvents rest true
+  | (.during, m) :: rest, started =>
+    (if started then [] else [.poll]) ++ [.request m, .finish, .poll] ++ schedEvents rest true
+
+/-- The restarts a scripted tail carries out, oldest first. -/
+def schedExecuted (script : List (When × Mode)) : List Mode :=
+  (sigQuiesce (sigRun {} (schedEvents script false))).done.reverse
+
 /-! ### Sized process images and drivers -/
 
 /-- `Vec::resize(n, 0)`. -/
@@ -918,12 +1025,24 @@ def writeTarget (s : Storage) (cur : Option Nat) (t : Target) (x : Val) : Option
     | none => none
   | none => none
 
+/-- Result type of `x + <untyped integer literal>`: the literal is a DINT unless the other operand
+is unsigned or wider; SINT (2) and INT (3) operands are promoted to DINT (4).  `Stmt::Assign`
+stores the result as it is. -/
+def untypedTag (ty : Nat) : Nat := if ty = 2 ∨ ty = 3 then 4 else ty
+
 /-- One simple statement. -/
 def execSStmt (s : Storage) (cur : Option Nat) : SStmt → Except Err Storage
   | .inc t k =>
     match readTarget s cur t with
     | some (.num ty v) =>
       match writeTarget s cur t (.num ty (v + k)) with
+      | some s' => .ok s'
+      | none => .error .undefinedVariable
+    | _ => .error .typeMismatch
+  | .incu t k =>
+    match readTarget s cur t with
+    | some (.num ty v) =>
+      match writeTarget s cur t (.num (untypedTag ty) (v + k)) with
       | some s' => .ok s'
       | none => .error .undefinedVariable
     | _ => .error .typeMismatch
